@@ -127,3 +127,41 @@ Proof.
   by rewrite ler_muln2r /= H2.
 Qed.
 End Range.
+
+(* ---------- D = 0 only when the halves are proportional (qubit k is not entangled with the rest) ---------- *)
+Section Zero.
+Variable C : numClosedFieldType.
+Variable n : nat.
+Variables u v : 'I_n -> C.
+Local Notation cj := (@conjC C).
+
+Lemma nsq_eq0 (z : C) : nsq cj z = 0 -> z = 0.
+Proof. rewrite /nsq => /eqP. rewrite mulf_eq0 conjC_eq0 orbb. by move/eqP. Qed.
+
+Theorem D_eq0_cross : D cj u v = 0 -> forall i j : 'I_n, u i * v j = u j * v i.
+Proof.
+  move=> H0.
+  have Hlt : forall i j : 'I_n, (i < j)%N -> u i * v j = u j * v i.
+    move=> i j Hij.
+    have Hall : forall j0 : 'I_n, predT j0 -> \sum_(i0 : 'I_n | (i0 < j0)%N) nsq cj (u i0 * v j0 - u j0 * v i0) = 0.
+      apply: psumr_eq0P; last exact: H0.
+      move=> k _. apply: sumr_ge0 => l _. exact: mul_conjC_ge0.
+    have Hj0 := Hall j isT.
+    have Hin : forall i0 : 'I_n, (i0 < j)%N -> nsq cj (u i0 * v j - u j * v i0) = 0.
+      apply: psumr_eq0P; last exact: Hj0.
+      move=> k _. exact: mul_conjC_ge0.
+    have Hz := Hin i Hij.
+    by move/nsq_eq0/eqP: Hz; rewrite subr_eq0 => /eqP.
+  move=> i j. case: (ltngtP i j) => Hij.
+  - exact: Hlt.
+  - by rewrite (Hlt j i Hij).
+  - by rewrite (val_inj Hij).
+Qed.
+
+(* hence, when v is not the zero vector, u is a multiple of v *)
+Corollary D_eq0_proportional (j : 'I_n) : D cj u v = 0 -> v j != 0 -> forall i, u i = (u j / v j) * v i.
+Proof.
+  move=> H0 Hv i. have E := D_eq0_cross H0 i j.
+  by rewrite mulrAC -E mulfK.
+Qed.
+End Zero.
